@@ -934,6 +934,8 @@ def run(ctx):
     from vlib import c14g_part
     total += c14g_part.part_cfg_passes(ctx)
     ctx.log(f"cfg passes {time.time()-t:.0f}s"); t = time.time()
+    total += c14g_part.part_asm_cfg(ctx)
+    ctx.log(f"assembly control flow {time.time()-t:.0f}s"); t = time.time()
     from vlib import c14l_part
     total += c14l_part.part_small_passes(ctx)
     ctx.log(f"small rewrite passes {time.time()-t:.0f}s"); t = time.time()
